@@ -489,8 +489,8 @@ def ruleHHMMmilitary(ts: datetime, m: RegexMatch) -> Optional[Time]:
     r"(?P<hour>(?&_hour))"  # We certainly match an hour
     # We try to match also the minute
     # (also "8 Uhr 30" with blanks, unless the number reads on as a date or
-    # time: "8 Uhr 12.3.", "8 Uhr 30.", "8 Uhr 12 Februar")
-    r"((?P<sep>:|uhr|h|\.|\s+uhr\s+(?=(?&_minute)(?![\d.:]|\s*({}))))"
+    # time: "8 Uhr 12.3.", "8 Uhr 30.", "8 Uhr 12/3", "8 Uhr 12-03-2021", "8 Uhr 12 Februar")
+    r"((?P<sep>:|uhr|h|\.|\s+uhr\s+(?=(?&_minute)(?![\d.:/]|-\d|\s*({}))))"
     r"(?P<minute>(?&_minute)))?"
     r"\s*((?P<clock>uhr|h)\b)?"  # We match uhr with no minute (a whole word)
     r"(?P<ampm>\s*[ap]\.?m\.?(?![^\W\d_]))?"  # AM PM (a whole word)
